@@ -72,6 +72,20 @@ def run(cmd, timeout=None, cwd=None, env=None, input=None, check=False):
     return p
 
 
+def load_findings():
+    """known findings: /verif/known_findings.json merged with /verif/findings/*.json (one file per
+    property keeps concurrent edits apart); committed files, never written at run time"""
+    out = {"findings": []}
+    paths = [os.path.join(VERIF, "known_findings.json")]
+    fdir = os.path.join(VERIF, "findings")
+    if os.path.isdir(fdir):
+        paths += [os.path.join(fdir, f) for f in sorted(os.listdir(fdir)) if f.endswith(".json")]
+    for p in paths:
+        if os.path.exists(p):
+            out["findings"] += json.load(open(p)).get("findings", [])
+    return out
+
+
 class Broken(Exception):
     """A proof obligation or the correspondence no longer checks."""
 
@@ -85,7 +99,7 @@ class Ctx:
         self.t0 = time.time()
         base = os.environ.get("TMPDIR") or "/var/tmp"
         self.scratch = tempfile.mkdtemp(prefix="pdshverif-%s-" % prop, dir=base)
-        self.findings = json.load(open(os.path.join(VERIF, "known_findings.json")))
+        self.findings = load_findings()
         self.violations = []      # (signature, what, case)  -- not listed
         self.known_hits = {}      # finding id -> count
         self.broken = []          # (kind, name, detail)  P-BROKEN / C-BROKEN
@@ -106,38 +120,42 @@ class Ctx:
         return self.tier == "quick"
 
     # ---------------------------------------------------------------- consts
-    def gen_consts(self):
-        """Regenerate lean/PdshVerif/Gen/Consts.lean from /repo's working tree."""
-        out = ["-- GENERATED by vlib/common.py:gen_consts from /repo's working tree. DO NOT EDIT.",
-               "namespace PdshVerif.Gen", ""]
-        for sect in ("CBUF", "HOSTLIST", "DSH"):
-            exe = os.path.join(self.scratch, "probe_" + sect)
-            p = run(["gcc", "-w", "-DHAVE_CONFIG_H", "-DPROBE_" + sect, "-I" + REPO,
-                     "-I" + REPO + "/src/pdsh", "-I" + REPO + "/src/common",
-                     os.path.join(HARNESS, "consts_probe.c"), "-o", exe, "-lpthread"])
+    def gen_consts(self, sections=None):
+        """Regenerate lean/PdshVerif/Gen/<Section>.lean from /repo's working tree: every
+        harness/consts/<section>.c is compiled against /repo and prints Lean definitions."""
+        cdir = os.path.join(HARNESS, "consts")
+        names = sorted(f[:-2] for f in os.listdir(cdir) if f.endswith(".c"))
+        if sections is not None:
+            names = [n for n in names if n in sections]
+        ok = True
+        for name in names:
+            exe = os.path.join(self.scratch, "probe_" + name)
+            p = run(["gcc", "-w", "-DHAVE_CONFIG_H", "-D_GNU_SOURCE", "-I" + REPO, "-I" + REPO + "/src/pdsh",
+                     "-I" + REPO + "/src/common", "-I" + REPO + "/src/modules", os.path.join(cdir, name + ".c"),
+                     "-o", exe, "-lpthread"])
             if p.returncode != 0:
-                self.broken.append(("P-BROKEN", "Gen.Consts/" + sect,
+                self.broken.append(("P-BROKEN", "Gen." + name.capitalize(),
                                     "constants probe does not compile against /repo: " +
                                     p.stderr.decode("utf-8", "replace")[-1500:]))
-                return False
+                ok = False
+                continue
             q = run([exe], timeout=20)
             if q.returncode != 0:
-                self.broken.append(("P-BROKEN", "Gen.Consts/" + sect, "constants probe failed"))
-                return False
-            out.append("-- section " + sect)
-            out.append(q.stdout.decode())
-        out.append("end PdshVerif.Gen")
-        text = "\n".join(out) + "\n"
-        path = os.path.join(LEAN_DIR, "PdshVerif", "Gen", "Consts.lean")
-        with open(os.path.join(LEAN_DIR, ".lock"), "w") as lk:
-            fcntl.flock(lk, fcntl.LOCK_EX)
-            old = open(path).read() if os.path.exists(path) else None
-            if old != text:
-                with open(path, "w") as f:
-                    f.write(text)
-                self.log("Gen/Consts.lean changed (regenerated from /repo)")
-        self.consts_text = text
-        return True
+                self.broken.append(("P-BROKEN", "Gen." + name.capitalize(), "constants probe failed"))
+                ok = False
+                continue
+            text = ("-- GENERATED by vlib/common.py:gen_consts from /repo's working tree "
+                    "(harness/consts/%s.c). DO NOT EDIT.\nnamespace PdshVerif.Gen\n\n%s\nend PdshVerif.Gen\n"
+                    % (name, q.stdout.decode()))
+            path = os.path.join(LEAN_DIR, "PdshVerif", "Gen", name.capitalize() + ".lean")
+            with open(os.path.join(LEAN_DIR, ".lock"), "w") as lk:
+                fcntl.flock(lk, fcntl.LOCK_EX)
+                old = open(path).read() if os.path.exists(path) else None
+                if old != text:
+                    with open(path, "w") as f:
+                        f.write(text)
+                    self.log("Gen/%s.lean changed (regenerated from /repo)" % name.capitalize())
+        return ok
 
     # ----------------------------------------------------------------- proofs
     def lean_build(self, targets, timeout=3000):
